@@ -374,6 +374,8 @@ async fn actor(i: usize, a: Actor, data: Vec<u8>, reg: Rc<Registry>, errs: Errs,
             let Ok(addr) = l.local_addr() else { return };
             let (c, acc) = futures_util::join!(compio_net::TcpStream::connect(addr), l.accept());
             let (Ok(mut c), Ok((srv, _))) = (c, acc) else { return };
+            no_time_wait(&c);
+            no_time_wait(&srv);
             keep.borrow_mut().push(Box::new(srv));
             let buf = TBuf::from_vec(&reg, data.clone());
             let ptr = buf.v.as_ptr() as usize;
